@@ -25,7 +25,9 @@ fn busy_script(d: &str, n: usize) -> String {
 
 pub fn generate(rng: &mut Rng, idx: usize, tier: Tier) -> CaseOut {
     let d = mix::scripts_dir();
-    let nblocks = if tier == Tier::Thorough { rng.range(1, 40) } else { rng.range(1, 12) };
+    // mostly small sets; every fifth case is a large one (more tasks than any plausible concurrency cap)
+    let nblocks = if idx % 5 == 4 { rng.range(33, 48) } else if tier == Tier::Thorough { rng.range(1, 40) } else { rng.range(1, 12) };
+    let large = nblocks > 32;
     let nfiles = rng.range(1, 3);
     let fail_mode = idx % 3 == 2; // a third of the cases have at least one failing script
     let count_mode = idx % 5 == 0 && !fail_mode; // invocation counting through a side file (needs io: safe mode)
@@ -51,10 +53,13 @@ pub fn generate(rng: &mut Rng, idx: usize, tier: Tier) -> CaseOut {
             "count.lua".to_string()
         } else if fail_mode && b == fail_at {
             failing[rng.below(failing.len())].to_string()
-        } else if fail_mode && rng.chance(1, 6) {
+        } else if fail_mode && !large && rng.chance(1, 6) {
             failing[rng.below(failing.len())].to_string()
-        } else if rng.chance(1, 5) {
+        } else if rng.chance(1, 5) && !(large && fail_mode) {
             "nil.lua".to_string()
+        } else if large && fail_mode {
+            // a single instantly failing script among many slow ones: its error must not get lost
+            format!("busy{}.lua", 2 + rng.below(2))
         } else {
             format!("busy{}.lua", rng.below(4))
         };
@@ -63,9 +68,12 @@ pub fn generate(rng: &mut Rng, idx: usize, tier: Tier) -> CaseOut {
         if count_mode {
             attrs.push(("log".into(), log.clone()));
         }
-        match rng.below(5) {
+        match rng.below(8) {
             0 => attrs.push(("check-lua-pattern".into(), "id=(?P<value>[a-z]+)".into())),
             1 => attrs.push(("check-lua-pattern".into(), "[a-z]+".into())),
+            // patterns whose match depends on the untrimmed content
+            2 => attrs.push(("check-lua-pattern".into(), "^\\s+(?P<value>\\S+)".into())),
+            3 => attrs.push(("check-lua-pattern".into(), "(?s)^\\n.*\\n$".into())),
             _ => {}
         }
         if rng.chance(1, 4) {
